@@ -508,6 +508,166 @@ func c02Labels(c *Ctx) {
 	c.Check(armOK, "labels.decoded", FuncName(fn)+":arm[TokenQuotedLit]", fn.Pos(), "every TokenQuotedLit is handed to ParseStringLiteralToken", "the TokenQuotedLit arm does not hand every literal token to ParseStringLiteralToken before anything else is decided")
 	c.Floor("labels.decoded buffer writes", writes, 1, "decoded literal and error marker")
 	c.Floor("labels.decoded decoded writes", decoded, 1, "the literal arm")
+	// the label returned is the accumulated buffer
+	isBufMethod := func(v ssa.Value, names ...string) bool {
+		call, ok := v.(*ssa.Call)
+		if !ok {
+			return false
+		}
+		cal := call.Call.StaticCallee()
+		if cal == nil || cal.Signature.Recv() == nil || !isNamed(cal.Signature.Recv().Type(), "bytes", "Buffer") && !isNamed(cal.Signature.Recv().Type(), "strings", "Builder") {
+			return false
+		}
+		for _, n := range names {
+			if cal.Name() == n {
+				return true
+			}
+		}
+		return false
+	}
+	emptyGuarded := func(b *ssa.BasicBlock) bool {
+		for d := b.Idom(); d != nil; d = d.Idom() {
+			iff, ok := lastIf(d)
+			if !ok {
+				continue
+			}
+			bo, ok := iff.Cond.(*ssa.BinOp)
+			if !ok || !isBufMethod(bo.X, "Len") {
+				continue
+			}
+			k, isC := constInt(bo.Y)
+			if !isC || k != 0 {
+				continue
+			}
+			side := -1
+			switch bo.Op {
+			case token.EQL, token.LEQ:
+				side = 0
+			case token.NEQ, token.GTR:
+				side = 1
+			}
+			if side >= 0 && len(d.Succs[side].Preds) == 1 && (d.Succs[side] == b || d.Succs[side].Dominates(b)) {
+				return true
+			}
+		}
+		return false
+	}
+	nret := 0
+	for _, b := range fn.Blocks {
+		ret, ok := b.Instrs[len(b.Instrs)-1].(*ssa.Return)
+		if !ok || len(ret.Results) == 0 {
+			continue
+		}
+		nret++
+		v := ret.Results[0]
+		okv := isConstLike(v, 0) || isBufMethod(v, "String") || emptyGuarded(b)
+		if ph, isPhi := v.(*ssa.Phi); isPhi && !okv {
+			okv = true
+			for _, e := range ph.Edges {
+				if !isConstLike(e, 0) && !isBufMethod(e, "String") {
+					okv = false
+				}
+			}
+		}
+		c.Check(okv, "labels.decoded", FuncName(fn)+":return["+pathName(v)+"]", ret.Pos(), "the accumulated buffer (or a constant on an error path)",
+			"a label is returned that is not the accumulated buffer: a quoted label is scanned into several literal tokens (at every $ and %), so the parts read before this return are dropped")
+	}
+	c.Floor("labels.decoded returns", nret, 2, "the error return and the final return")
+	unicodeEscapeRule(c, "labels.decoded")
+}
+
+// unicodeEscapeRule: in ParseStringLiteralToken the code point of a \u / \U escape (the result of
+// strconv.ParseUint) reaches the output only through UTF-8 encoding: it is never converted to a
+// single byte unless a dominating comparison shows it is below 0x80.
+func unicodeEscapeRule(c *Ctx, rule string) {
+	c.Rule("escapes.unicode (" + rule + "): in ParseStringLiteralToken the number parsed by strconv.ParseUint for a \\u/\\U escape is handed to the utf8 encoder (utf8.EncodeRune/AppendRune or a rune→string conversion) and is never truncated to one byte unless a dominating comparison bounds it below 0x80")
+	fn := c.P.LookupFunc("hclsyntax", "ParseStringLiteralToken")
+	if fn == nil {
+		c.CheckerFail(rule, "anchor ParseStringLiteralToken does not resolve")
+		return
+	}
+	derived := map[ssa.Value]bool{}
+	var work []ssa.Value
+	for _, b := range fn.Blocks {
+		for _, ins := range b.Instrs {
+			if call, ok := ins.(*ssa.Call); ok {
+				if cal := call.Call.StaticCallee(); cal != nil && cal.Pkg != nil && cal.Pkg.Pkg.Path() == "strconv" && strings.HasPrefix(cal.Name(), "Parse") {
+					derived[call] = true
+					work = append(work, call)
+				}
+			}
+		}
+	}
+	if len(work) == 0 {
+		c.CheckerFail(rule, "no strconv.Parse* call in ParseStringLiteralToken: the unicode escape decoder is not recognised")
+		return
+	}
+	encoded := 0
+	for len(work) > 0 {
+		v := work[len(work)-1]
+		work = work[:len(work)-1]
+		for _, r := range *v.Referrers() {
+			switch x := r.(type) {
+			case *ssa.Extract:
+				if x.Index == 0 && !derived[x] {
+					derived[x] = true
+					work = append(work, x)
+				}
+			case *ssa.Phi, *ssa.ChangeType:
+				if !derived[x.(ssa.Value)] {
+					derived[x.(ssa.Value)] = true
+					work = append(work, x.(ssa.Value))
+				}
+			case *ssa.Convert:
+				bt, _ := x.Type().Underlying().(*types.Basic)
+				if bt != nil && bt.Kind() == types.String {
+					encoded++ // string(rune)
+					continue
+				}
+				if bt != nil && (bt.Kind() == types.Uint8 || bt.Kind() == types.Int8) {
+					// truncation to one byte: only under a bound below 0x80
+					bounded := false
+					for d := x.Block(); d != nil; d = d.Idom() {
+						iff, ok := lastIf(d)
+						if !ok {
+							continue
+						}
+						bo, ok := iff.Cond.(*ssa.BinOp)
+						if !ok || !derived[bo.X] {
+							continue
+						}
+						k, isC := constInt(bo.Y)
+						if !isC {
+							continue
+						}
+						side := -1
+						switch {
+						case bo.Op == token.LSS && k <= 0x80, bo.Op == token.LEQ && k <= 0x7f:
+							side = 0
+						case bo.Op == token.GEQ && k <= 0x80, bo.Op == token.GTR && k <= 0x7f:
+							side = 1
+						}
+						if side >= 0 && len(d.Succs[side].Preds) == 1 && (d.Succs[side] == x.Block() || d.Succs[side].Dominates(x.Block())) {
+							bounded = true
+						}
+					}
+					c.Check(bounded, rule, FuncName(fn)+":escape[unicode].byte", x.Pos(), "truncated only below 0x80",
+						"the code point of a \\u escape is truncated to a single byte without being known to be below 0x80: U+0080..U+00FF decode to invalid UTF-8 instead of the two-byte encoding")
+					continue
+				}
+				if !derived[x] {
+					derived[x] = true
+					work = append(work, x)
+				}
+			case *ssa.Call:
+				if cal := x.Call.StaticCallee(); cal != nil && cal.Pkg != nil && cal.Pkg.Pkg.Path() == "unicode/utf8" && (cal.Name() == "EncodeRune" || cal.Name() == "AppendRune") {
+					encoded++
+				}
+			}
+		}
+	}
+	c.Check(encoded > 0, rule, FuncName(fn)+":escape[unicode].encoded", fn.Pos(), "the code point is UTF-8 encoded",
+		"the parsed code point never reaches utf8.EncodeRune/AppendRune or a rune→string conversion")
 }
 
 func lastIf(b *ssa.BasicBlock) (*ssa.If, bool) {
